@@ -2,6 +2,7 @@ package broker
 
 import (
 	"bytes"
+	"encoding/json"
 	"net"
 	"time"
 
@@ -13,6 +14,7 @@ import (
 	"github.com/emitter-io/emitter/internal/provider/contract"
 	"github.com/emitter-io/emitter/internal/provider/storage"
 	"github.com/emitter-io/emitter/internal/security"
+	"github.com/emitter-io/emitter/internal/service/link"
 	"github.com/emitter-io/emitter/internal/service/pubsub"
 	"github.com/emitter-io/emitter/internal/verifrt"
 )
@@ -279,5 +281,52 @@ func VerifC02Request(v *verifrt.T) {
 		pub := p.(*mqtt.Publish)
 		v.Assert(bytes.Equal(pub.Topic, []byte("a/")) && bytes.Equal(pub.Payload, []byte{0x42}), "C02.req.channel-key-stripped-payload-unchanged")
 	}
+	v.Observe("bw", uint64(len(bsock.writes)))
+}
+
+// VerifC02Link: a link shortcut (1-2 alphanumeric characters) registered by a connection
+// expands, for that connection only, to the channel and key it was created with: a
+// publish on the alias reaches the subscribers of the channel once, under the channel's
+// name; another connection's identical alias text is not expanded.
+func VerifC02Link(v *verifrt.T) {
+	e := c08new(v)
+	k := security.Key(make([]byte, 24))
+	k.SetMaster(1)
+	k.SetContract(7)
+	k.SetSignature(9)
+	k.SetPermissions(security.AllowReadWrite)
+	k.SetTarget("a/")
+	name := e.ciph.add(k)
+	a, _ := hconn(e.svc, 0)
+	b, bsock := hconn(e.svc, 1)
+	c, _ := hconn(e.svc, 2)
+	v.Assert(e.ps.OnSubscribe(b, []byte(name+"/a/")) == nil, "C02.link.env")
+	alias := v.Bytes(1+v.Choice(2, "alen"), "alias")
+	for _, ch := range alias {
+		v.Assume((ch >= 'a' && ch <= 'z') || (ch >= '0' && ch <= '9'))
+	}
+	req := link.Request{Name: string(alias), Key: name, Channel: "a/", Subscribe: false}
+	var payload []byte
+	if v.Symbolic() {
+		hLinkReq = req
+	} else {
+		payload, _ = json.Marshal(&req)
+	}
+	_, ok := link.New(e.svc, e.ps).OnRequest(a, payload)
+	v.Assert(ok, "C02.link.created")
+	v.Reach("link-created")
+	// the owner publishes on the alias
+	err := e.ps.OnPublish(a, &mqtt.Publish{Topic: append([]byte(nil), alias...), Payload: []byte{0x43}})
+	v.Assert(err == nil, "C02.link.publish-on-alias-accepted")
+	v.Assert(len(bsock.writes) == 1, "C02.link.delivered-once")
+	if len(bsock.writes) == 1 {
+		p, derr := mqtt.DecodePacket(bytes.NewReader(bsock.writes[0]), 65536)
+		v.Assert(derr == nil, "C02.link.packet-well-formed")
+		pub := p.(*mqtt.Publish)
+		v.Assert(bytes.Equal(pub.Topic, []byte("a/")) && bytes.Equal(pub.Payload, []byte{0x43}), "C02.link.channel-and-payload")
+	}
+	// somebody else's connection has no such link: the same text is just an invalid channel
+	err2 := e.ps.OnPublish(c, &mqtt.Publish{Topic: append([]byte(nil), alias...), Payload: []byte{0x44}})
+	v.Assert(err2 != nil && len(bsock.writes) == 1, "C02.link.alias-is-per-connection")
 	v.Observe("bw", uint64(len(bsock.writes)))
 }
